@@ -115,6 +115,66 @@ GEN_FILES.append("Gen/NumToJson.v")
 GEN_FILES.append("Gen/CanonFacts.v")
 
 
+def _regflow():
+    import tr_regflow
+    text, _ = tr_regflow.translate(common.REPO, None)
+    common.write_if_changed(os.path.join(common.COQ, "Gen", "RegFlow.v"), text)
+
+
+TRANSLATORS.append(("tr_regflow", _regflow))
+GEN_FILES.append("Gen/RegFlow.v")
+
+
+def _versioning_src():
+    import tr_versioning_src
+    text, _ = tr_versioning_src.translate(common.REPO, common.PY, common.VERIF)
+    common.write_if_changed(os.path.join(common.COQ, "Gen", "VersioningSrc.v"), text)
+
+
+TRANSLATORS.append(("tr_versioning_src", _versioning_src))
+GEN_FILES.append("Gen/VersioningSrc.v")
+
+
+def _filters():
+    import tr_filters
+    text, _ = tr_filters.translate(common.REPO, None)
+    common.write_if_changed(os.path.join(common.COQ, "Gen", "FilterFacts.v"), text)
+
+
+TRANSLATORS.append(("tr_filters", _filters))
+GEN_FILES.append("Gen/FilterFacts.v")
+
+
+def _visitor():
+    import tr_visitor
+    text, _ = tr_visitor.translate(common.REPO, None)
+    common.write_if_changed(os.path.join(common.COQ, "Gen", "VisitorFacts.v"), text)
+
+
+TRANSLATORS.append(("tr_visitor", _visitor))
+GEN_FILES.append("Gen/VisitorFacts.v")
+
+
+def _patterneq():
+    import tr_patterneq
+    text, _ = tr_patterneq.translate(common.REPO, None)
+    common.write_if_changed(os.path.join(common.COQ, "Gen", "PatternEqFacts.v"), text)
+
+
+TRANSLATORS.append(("tr_patterneq", _patterneq))
+GEN_FILES.append("Gen/PatternEqFacts.v")
+
+
+def _timestamp_src():
+    import tr_timestamp_src
+    text, _ = tr_timestamp_src.translate(common.REPO, common.PY, common.VERIF)
+    common.write_if_changed(os.path.join(common.COQ, "Gen", "TimestampSrc.v"), text)
+
+
+TRANSLATORS.append(("tr_timestamp_src", _timestamp_src))
+GEN_FILES.append("Gen/TimestampSrc.v")
+
+
 def run_all():
     out = []
     for name, fn in TRANSLATORS:
